@@ -10,47 +10,25 @@ ROOT = Path(__file__).resolve().parent.parent
 TRUST = ("TLC 1.8 + CommunityModules; the harness renderer/replayer; CPython and numpy/pandas as executors; "
          "bounds of the enumeration as recorded in the evidence file")
 
-CLAIMS: dict[str, dict] = {
-    "C02": {
-        "technique": "TLA+ spec (DepGraph contract + DepSort queue algorithm) model-checked by TLC; spec->code replay "
-                     "of every emitted graph/order; code->spec oracle validation of random large graphs",
-        "text": "TLC checks exhaustively (all graphs over 3 components x all declaration orders) that the queue "
-                "algorithm refines the order-free contract and terminates; every emitted scenario is built with the "
-                "real Model (components as derived/reaction/assignment/surrogate) and outcome class, missing names and "
-                "values are compared with the contract's prediction; answers of the implementation on random 5-10 "
-                "component graphs are judged by TLC against the same contract.",
-        "design_ref": "DESIGN.md section 5, C02",
-    },
-    "C01": {
-        "technique": "TLA+ spec (MxlModel semantics over FnLib, ModelEval shape family) checked by TLC (exhaustive small family "
-                     "+ seeded -simulate rich family, five semantic theorems); spec->code replay through all eight entry points",
-        "text": "The meaning of a model (saturation evaluator, static closure, stoichiometry x fluxes) is an explicit TLA+ "
-                "module; TLC builds every model of a bounded family action by action and seeded random members of a rich "
-                "family (chains, forward references, computed coefficients, two-output surrogate, data, time), checks "
-                "order-invariance / frozen-parameter / untouched-variable theorems on each, and emits predicted tables at "
-                "three states; the real Model is built in shuffled declaration order and every entry point (positional, "
-                "named, fluxes, args, stoichiometries and the three time-course forms) must return those numbers.",
-        "design_ref": "DESIGN.md section 5, C01",
-    },
-    "C13": {
-        "technique": "same TLA+ specification as C01 (InitEnv / Static / Frozen operators, theorems StaticIsReachability, "
-                     "FrozenIsConstant, InitConsistent checked by TLC); spec->code replay of initial conditions, derived-parameter "
-                     "classification, frozen-versus-recomputed tables, Simulator default y0",
-        "text": "Initial assignments on variables and parameters chained through derived quantities, rates and surrogate "
-                "outputs are evaluated by the specification once at t=0; TLC proves in the bound that the static closure is "
-                "graph reachability and that frozen names are constant over states; the real model must report the same "
-                "initial conditions, parameter values, derived-parameter names and, at states != initial and t != 0, the "
-                "same full table.",
-        "design_ref": "DESIGN.md section 5, C13",
-    },
-}
+def load_claims() -> dict[str, dict]:
+    """One file per claimed property: /verif/claims/Cnn.json with keys technique, text, design_ref
+    (optional: category, note)."""
+    out = {}
+    for f in sorted((ROOT / "claims").glob("C*.json")):
+        out[f.stem] = json.loads(f.read_text())
+    return out
+
+
+CLAIMS = load_claims()
 
 NOT_YET = "check not built yet (planned, see DESIGN.md section 5)"
 
 
 def main() -> None:
     props = [json.loads(l) for l in (ROOT / "properties.jsonl").read_text().splitlines() if l.strip()]
-    findings = json.loads((ROOT / "known_findings.json").read_text())
+    from .core import load_findings
+
+    findings = {"findings": load_findings()}
     checks = []
     for p in props:
         pid = p["id"]
